@@ -125,10 +125,25 @@ GCAttrSpace == {a \in {GAttrP(k, m, r, p) : k \in {"int", "string", "bool"}, m \
 \* values: those of lib/Values.tla; a 32 bit attribute cannot even be given the "big" value; a OneOf attribute
 \* holds member x (the leaf under test, cn = 1) or member y (a plain string, cn = 2)
 AltY == V("string", 3, "plain", 2)
+\* precision-sensitive representatives per numeric kind and width - this specification's own value shapes (the numbers
+\* of lib/Values.tla are small integers and halves: every one of them survives a conversion at the wrong width, and in
+\* metadata / headers / trailers numbers travel as text and are parsed back at a stated bit size).  For an unvalidated
+\* attribute (the rules of lib/Values.tla have no reading of these shapes):
+\*   frac    0.1: no float32 holds it exactly (a Float32 attribute is given the float32 nearest to it)
+\*   odd24   2^24 + 1: an integer no float32 holds           over32  1e39: beyond the largest float32
+\*   max32   the largest value of the 32 bit type (float32 / int32 / uint32): every width holds it unchanged
+\*   b32     2^32 + 1: beyond 32 bits, unlike "big" (2^53 + 1) exactly representable as a float64
+PrecLeaf(a) ==
+  CASE a.kind = "float" /\ a.w = "64" -> {V("float", 0, "frac", 1), V("float", 9, "odd24", 1), V("float", 9, "over32", 1)}
+    [] a.kind = "float" -> {V("float", 0, "frac", 1), V("float", 9, "max32", 1)}
+    [] a.kind \in {"int", "uint"} -> {V(a.kind, 9, "max32", 1)} \cup (IF a.w = "32" THEN {} ELSE {V(a.kind, 9, "b32", 1)})
+    [] OTHER -> {}
+PrecVals(a) == IF a.rule # "none" THEN {}
+               ELSE {[v EXCEPT !.cn = c] : v \in PrecLeaf(a), c \in (IF a.nest \in {"elem", "mapval"} THEN {1, 2} ELSE {1})}
 GVals(a) ==
   LET fits(v) == ~(a.w = "32" /\ v.s = "big") IN
-  IF a.nest = "oneof" THEN {v \in LeafVals(a.kind) : ShapeFits(v) /\ fits(v)} \cup {AltY}
-  ELSE {v \in ValsOf(a) : fits(v)}
+  IF a.nest = "oneof" THEN {v \in LeafVals(a.kind) : ShapeFits(v) /\ fits(v)} \cup {AltY} \cup PrecVals(a)
+  ELSE {v \in ValsOf(a) : fits(v)} \cup PrecVals(a)
 GCanBeAbsent(a) == a.mode = "optional" \/ (a.mode = "required" /\ (a.nest \in {"elem", "mapkey", "mapval", "nested", "oneof"} \/ a.kind = "bytes"))
 GPayloadVals(a) == GVals(a) \cup (IF GCanBeAbsent(a) THEN {Absent} ELSE {})
 IsAltY(a, v) == a.nest = "oneof" /\ v # Absent /\ v.cn = 2
@@ -249,8 +264,8 @@ NumbersValid(t) == \A i \in DOMAIN t : t[i].number >= 1
 \* --- generated conversions
 \* what the client hands to the transport
 Narrow(a, v) ==
-  IF v # Absent /\ a.loc = "message" /\ a.kind \in {"int", "uint"} /\ a.w = "n" /\ v.s = "big" /\ ~IsAltY(a, v) /\ Dev("int.narrowed_to_32_bits")
-  THEN [v EXCEPT !.s = "plain", !.n = 1]      \* 2^53 + 1 modulo 2^32
+  IF v # Absent /\ a.loc = "message" /\ a.kind \in {"int", "uint"} /\ a.w = "n" /\ v.s \in {"big", "b32"} /\ ~IsAltY(a, v) /\ Dev("int.narrowed_to_32_bits")
+  THEN [v EXCEPT !.s = "plain", !.n = 1]      \* 2^53 + 1 and 2^32 + 1 modulo 2^32
   ELSE v
 \* (metadata, headers and trailers carry one entry per list element: an empty list leaves nothing to carry)
 ClientWire(a, v) == IF v = Absent \/ (a.loc # "message" /\ a.nest = "elem" /\ v.cn = 0) THEN [loc |-> "none", v |-> Absent]
